@@ -1517,6 +1517,9 @@ class Engine:
             if mk in memo: return a
             memo[mk] = True
             if a is b: return a
+            if a.lazy and b.lazy and a.name != b.name:
+                # two lazily materialised symbolic structs with different identities: their untouched fields differ
+                raise Unmergeable('lazy structs of different identity')
             for k in set(a.fields) | set(b.fields):
                 va = a.fields.get(k); vb = b.fields.get(k)
                 if isinstance(va, (int, str)) or isinstance(vb, (int, str)):
